@@ -580,6 +580,7 @@ func g1Worker(w *pool.W, arg json.RawMessage) {
 			var cl string
 			cl, rexp, rgot = judge(red, sh.Seed)
 			if cl != clause {
+				delete(failed, key)
 				w.Emit(rec{Kind: "fail", Key: "flaky:" + red.canon(), Clause: "nondeterministic", Case: g1Case{"g1", red, red.canon(), source(red, sh.Seed), sh.Seed}, Detail: fmt.Sprintf("clause %q then %q", clause, cl)})
 				return
 			}
